@@ -2,7 +2,7 @@ SPECIFICATION Spec
 CONSTANTS
   MaxLen = 5
   Dump = TRUE
-  BodySel = {25, 26, 27, 28, 29, 30}
+  BodySel = {25, 26, 27, 28, 29, 30, 31}
 INVARIANT Consistent
 INVARIANT FinallyOnce
 INVARIANT CleanupOnDel
